@@ -31,6 +31,10 @@ func HeldLocks() int                { return 0 }
 // may only be accessed while mu (pointer to a sync.Mutex / RWMutex) is held.
 func Guard(obj any, mu any, name string) {}
 
+// GuardField is Guard with the mutex taken from the (possibly unexported,
+// possibly embedded) field of the struct *holder: the engine reads it directly.
+func GuardField(obj any, holder any, field string, name string) {}
+
 // GuardViolations is the number of monitored accesses made without the mutex.
 func GuardViolations() int { return 0 }
 func Symbolic() bool                { return true }
